@@ -1,1 +1,51 @@
-// access to private items of the parent module (compiled only under --cfg rustdds_verif)
+// access to private items of dds/with_key/datasample_cache.rs
+use super::*;
+
+impl<D: Keyed> DataSampleCache<D>
+where
+  D::K: std::fmt::Debug,
+{
+  /// (writer, sn) of every sample held, in key (receive timestamp) order
+  pub(crate) fn verif_held(&self) -> Vec<(GUID, i64)> {
+    self
+      .datasamples
+      .values()
+      .map(|s| (s.writer_guid, i64::from(s.sequence_number)))
+      .collect()
+  }
+  pub(crate) fn verif_digest(&self) -> String {
+    let ds: Vec<String> = self
+      .datasamples
+      .iter()
+      .map(|(t, s)| {
+        format!(
+          "@{}@:{:?}#{}:read={}:gen={:?}:{}",
+          t.to_ticks(),
+          s.writer_guid.prefix,
+          i64::from(s.sequence_number),
+          s.sample_has_been_read,
+          s.generation_counts,
+          match &s.sample {
+            Sample::Value(d) => format!("V{:?}", d.key()),
+            Sample::Dispose(k) => format!("D{k:?}"),
+          }
+        )
+      })
+      .collect();
+    let im: Vec<String> = self
+      .instance_map
+      .iter()
+      .map(|(k, m)| {
+        format!(
+          "{:?}:{:?}:{:?}:{:?}:{:?}",
+          k,
+          m.instance_samples.iter().map(|t| format!("@{}@", t.to_ticks())).collect::<Vec<_>>(),
+          m.instance_state,
+          m.latest_generation_available,
+          m.last_generation_accessed
+        )
+      })
+      .collect();
+    format!("DSC ds{ds:?} im{im:?}")
+  }
+}
